@@ -4,9 +4,58 @@ digest argument (C01) and the wrapping argument (C02) look into carry informatio
 namespace SuitVerif.Typing
 open SuitVerif SuitVerif.Encode SuitVerif.Decode SuitVerif.Py
 
+
+theorem KvKey.beq_iff (a b : KvKey) : (a == b) = true ↔ a = b := by
+  cases a; cases b
+  simp only [BEq.beq, instBEqKvKey.beq]
+  simp
+
+theorem inj_of_nodup_map {α β} (f : α → β) : ∀ (l : List α), (l.map f).Nodup → ∀ x ∈ l, ∀ y ∈ l, f x = f y → x = y := by
+  intro l
+  induction l with
+  | nil => intro _ x hx; simp at hx
+  | cons a rest ih =>
+    intro h x hx y hy hf
+    simp only [List.map_cons, List.nodup_cons, List.mem_map, not_exists, not_and] at h
+    simp only [List.mem_cons] at hx hy
+    rcases hx with rfl | hx <;> rcases hy with rfl | hy
+    · rfl
+    · exact absurd hf.symm (h.1 y hy)
+    · exact absurd hf (h.1 x hx)
+    · exact ih h.2 x hx y hy hf
+
+def KeysDistinct (r : List (KvKey × Node)) : Prop := (r.map (·.1)).Nodup
+
+theorem kvSet_keys (acc : List (KvKey × Node)) (k : KvKey) (v : Node) (h : KeysDistinct acc) :
+    KeysDistinct (kvSet acc k v) := by
+  unfold Decode.kvSet KeysDistinct at *
+  split
+  · have : (acc.map (fun e => if (e.1 == k) = true then (k, v) else e)).map (·.1) = acc.map (·.1) := by
+      rw [List.map_map]
+      apply List.map_congr_left
+      intro e _
+      simp only [Function.comp]
+      split
+      · rename_i he; exact ((KvKey.beq_iff _ _).mp he).symm
+      · rfl
+    rw [this]; exact h
+  · rename_i hany
+    rw [List.map_append, List.nodup_append]
+    refine ⟨h, by simp, ?_⟩
+    intro a ha b hb
+    simp only [List.map_cons, List.map_nil, List.mem_singleton] at hb
+    subst hb
+    intro heq
+    subst heq
+    apply hany
+    rw [List.any_eq_true]
+    obtain ⟨e, he, hek⟩ := List.mem_map.mp ha
+    exact ⟨e, he, (KvKey.beq_iff _ _).mpr hek⟩
+
+
 def opaqueTy : Ty → Bool
   | .cbstr _ | .union _ | .tag _ _ _ | .keyValue _ _ | .tupleNamed _ | .digestExt _ | .enum _ | .hex | .bstr
-  | .payloadMap _ _ => false
+  | .payloadMap _ _ | .keyValueUnnamed _ => false
   | _ => true
 
 mutual
@@ -15,13 +64,14 @@ inductive HasTy (s : Schema) : Cls → Node → Prop
   | union {c alts i ci n} : s.ty c = some (.union alts) → alts[i]? = some ci → HasTy s ci n →
       HasTy s c (.alt i (s.name ci) n)
   | tag {c t name child n} : s.ty c = some (.tag t name child) → HasTy s child n → HasTy s c (.tagged t name n)
-  | keyValue {c es emb r} : s.ty c = some (.keyValue es emb) → KvTy s es r → HasTy s c (.kv r)
+  | keyValue {c es emb r} : s.ty c = some (.keyValue es emb) → KvTy s es r → KeysDistinct r → HasTy s c (.kv r)
   | tupleNamed {c es ns} : s.ty c = some (.tupleNamed es) → TupleTy s es ns → HasTy s c (.tuple (es.map (·.1)) ns)
   | digestExt {c raw n} : s.ty c = some (.digestExt raw) → HasTy s raw n → HasTy s c n
   | enumv {c es e} : s.ty c = some (.enum es) → e ∈ es → HasTy s c (.enumv e.1 e.2)
   | enumNull {c es} : s.ty c = some (.enum es) → HasTy s c (.leaf Cbor.null .plain)
   | hex {c b} : (s.ty c = some .hex ∨ s.ty c = some .bstr) → HasTy s c (.leaf (.bstr b) .hex)
   | payloadMap {c kc vc r} : s.ty c = some (.payloadMap kc vc) → KvuTy s kc r → HasTy s c (.kvu r)
+  | keyValueUnnamed {c es r} : s.ty c = some (.keyValueUnnamed es) → HasTy s c (.kvu r)
   | opaque {c ty n} : s.ty c = some ty → opaqueTy ty = true → HasTy s c n
 inductive KvTy (s : Schema) : List Entry → List (KvKey × Node) → Prop
   | nil {es} : KvTy s es []
@@ -121,6 +171,25 @@ theorem bind_ok {α β} {x : R α} {f : α → R β} {b : β} (h : (x >>= f) = .
   | error e => simp [bind, Except.bind] at h
   | ok a => exact ⟨a, rfl, by simpa [bind, Except.bind] using h⟩
 
+theorem fromObjKv_keys (cx : Ctx) : ∀ (fuel : Nat) (es : List Entry) (kvs : List (String × Obj)) (acc r : List (KvKey × Node)),
+    fromObjKv cx fuel es kvs acc = .ok r → KeysDistinct acc → KeysDistinct r := by
+  intro fuel
+  induction fuel with
+  | zero => intro es kvs acc r h; simp [fromObjKv] at h
+  | succ fuel ih =>
+    intro es kvs acc r h hacc
+    unfold fromObjKv at h
+    cases kvs with
+    | nil => simp at h; subst h; exact hacc
+    | cons p rest =>
+      obtain ⟨k, x⟩ := p
+      dsimp only at h
+      split at h
+      · simp at h
+      · obtain ⟨n, _, h⟩ := bind_ok h
+        exact ih _ _ _ _ h (kvSet_keys _ _ _ hacc)
+
+
 theorem fromObj_tstr (cx : Ctx) (fuel : Nat) (kc : Cls) (k : String) (kn : Node)
     (h : fromObj cx fuel kc (.str k) = .ok kn) (hty : cx.schema.ty kc = some .tstr) : kn = .leaf (Cbor.text k) .plain := by
   cases fuel with
@@ -178,13 +247,19 @@ theorem typed_step (cx : Ctx) (fuel : Nat) (ih : P cx fuel) : P cx (fuel + 1) :=
           obtain ⟨r, hm, hp⟩ := bind_ok h
           simp only [pure, Except.pure, Except.ok.injEq] at hp
           subst hp
-          exact .keyValue hty (ih4 _ _ _ _ hm .nil)
+          exact .keyValue hty (ih4 _ _ _ _ hm .nil) (fromObjKv_keys cx fuel _ _ _ _ hm (by simp [KeysDistinct]))
         case payloadMap kc vc =>
           cases o <;> simp only [reduceCtorEq] at h
           obtain ⟨r, hm, hp⟩ := bind_ok h
           simp only [pure, Except.pure, Except.ok.injEq] at hp
           subst hp
           exact .payloadMap hty (ih5 _ _ _ _ _ hm .nil)
+        case keyValueUnnamed es =>
+          cases o <;> simp only [reduceCtorEq] at h
+          obtain ⟨r, hm, hp⟩ := bind_ok h
+          simp only [pure, Except.pure, Except.ok.injEq] at hp
+          subst hp
+          exact .keyValueUnnamed hty
         case digestExt raw =>
           have key : ∀ X, fromObj cx fuel raw X = .ok n → HasTy cx.schema c n :=
             fun X hX => .digestExt hty (ih1 _ _ _ hX)
@@ -276,5 +351,54 @@ theorem typed_all (cx : Ctx) : ∀ fuel, P cx fuel := by
 (any schema, file system, hash, description, fuel). -/
 theorem fromObj_typed (cx : Ctx) (fuel : Nat) (c : Cls) (o : Obj) (n : Node) (h : fromObj cx fuel c o = .ok n) :
     HasTy cx.schema c n := (typed_all cx fuel).1 c o n h
+
+
+/-! ### inversion -/
+
+theorem inv_tag {s c n t name child} (h : HasTy s c n) (hty : s.ty c = some (.tag t name child)) :
+    ∃ m, n = .tagged t name m ∧ HasTy s child m := by
+  cases h <;> simp_all [opaqueTy]
+  all_goals first
+    | (rename_i h1 h2; obtain ⟨rfl, rfl, rfl⟩ := h1; exact h2)
+    | skip
+
+theorem inv_cbstr {s c n inner} (h : HasTy s c n) (hty : s.ty c = some (.cbstr inner)) :
+    ∃ m, n = .wrapped m ∧ HasTy s inner m := by
+  cases h <;> simp_all [opaqueTy]
+
+theorem inv_kv {s c n es emb} (h : HasTy s c n) (hty : s.ty c = some (.keyValue es emb)) :
+    ∃ r, n = .kv r ∧ KvTy s es r ∧ KeysDistinct r := by
+  cases h <;> simp_all [opaqueTy]
+
+theorem inv_tuple {s c n es} (h : HasTy s c n) (hty : s.ty c = some (.tupleNamed es)) :
+    ∃ ns, n = .tuple (es.map (·.1)) ns ∧ TupleTy s es ns := by
+  cases h <;> simp_all [opaqueTy]
+
+theorem inv_union {s c n alts} (h : HasTy s c n) (hty : s.ty c = some (.union alts)) :
+    ∃ i ci m, alts[i]? = some ci ∧ n = .alt i (s.name ci) m ∧ HasTy s ci m := by
+  cases h <;> simp_all [opaqueTy]
+  rename_i alts' i ci m hi hm _
+  subst hty
+  exact ⟨i, ci, hi, m, ⟨rfl, rfl, rfl⟩, hm⟩
+
+theorem inv_digestExt {s c n raw} (h : HasTy s c n) (hty : s.ty c = some (.digestExt raw)) : HasTy s raw n := by
+  cases h <;> simp_all [opaqueTy]
+
+theorem inv_enum {s c n es} (h : HasTy s c n) (hty : s.ty c = some (.enum es)) :
+    (∃ e, e ∈ es ∧ n = .enumv e.1 e.2) ∨ n = .leaf Cbor.null .plain := by
+  cases h <;> simp_all [opaqueTy]
+
+theorem inv_hex {s c n} (h : HasTy s c n) (hty : s.ty c = some .hex ∨ s.ty c = some .bstr) :
+    ∃ b, n = .leaf (.bstr b) .hex := by
+  cases h <;> rcases hty with hty | hty <;> simp_all [opaqueTy]
+  all_goals (rename_i ty ho heq; subst heq; simp at ho)
+
+theorem inv_payloadMap {s c n kc vc} (h : HasTy s c n) (hty : s.ty c = some (.payloadMap kc vc)) :
+    ∃ r, n = .kvu r ∧ KvuTy s kc r := by
+  cases h <;> simp_all [opaqueTy]
+
+
+theorem inv_kvu {s c n es} (h : HasTy s c n) (hty : s.ty c = some (.keyValueUnnamed es)) : ∃ r, n = .kvu r := by
+  cases h <;> simp_all [opaqueTy]
 
 end SuitVerif.Typing
